@@ -2,7 +2,7 @@
 from fractions import Fraction as Fr
 import numpy as np
 from harness import coqio as Q
-from harness.impl import make_probe, exc_name
+from harness.impl import poke, make_probe, exc_name
 from harness.props import c14, c04
 
 CORR = "C18_corr"
@@ -99,6 +99,9 @@ def run(case):
             cube.extra_coords.add(f"e{t}", ax, (slope * (np.arange(shape[ax]) + sk) + icpt) * u.m, physical_types=f"custom:e{t}")
         cubes.append(cube)
     seq = NDCubeSequence(cubes)
+    for c_ in cubes:
+        poke(c_, case["key"])
+    poke(seq, case["key"])
     # the description the points are expressed in, for cube 0
     target = make_probe(case["A"], _cube_b(case, 0), tw=list(range(nd)), tp=list(range(nd)))
     pix_pts = [[Fr(*v) for v in p] for p in case["pts"]]
